@@ -10,32 +10,9 @@ import (
 	"regexp"
 	"strings"
 	"time"
+
+	"verifh/lib/common"
 )
-
-// KnownFinding is one entry of /verif/known_findings.json.
-type KnownFinding struct {
-	Property string `json:"property"`
-	ID       string `json:"id"`
-	Status   string `json:"status"` // "open" | "fixed"
-	Commit   string `json:"commit,omitempty"`
-	Class    string `json:"class"` // regular expression on the violation class
-	What     string `json:"what"`
-}
-
-func LoadKnown(path string) []KnownFinding {
-	b, err := os.ReadFile(path)
-	if err != nil {
-		return nil
-	}
-	var f struct {
-		Findings []KnownFinding `json:"findings"`
-	}
-	if json.Unmarshal(b, &f) != nil {
-		fmt.Println("INFRA-ERROR cannot parse", path)
-		os.Exit(2)
-	}
-	return f.Findings
-}
 
 // Report is the outcome of a property check.
 type Report struct {
@@ -63,7 +40,7 @@ var baseAssumptions = []string{
 // Finish classifies violations against the known-findings file, writes evidence and replays,
 // prints the verdict lines and returns the exit code.
 func (r *Report) Finish() int {
-	known := LoadKnown(filepath.Join(r.VerifDir, "known_findings.json"))
+	known := common.LoadKnown(r.VerifDir)
 	os.MkdirAll(filepath.Join(r.VerifDir, "replays"), 0o755)
 	os.MkdirAll(filepath.Join(r.VerifDir, "evidence"), 0o755)
 	exit := 0
@@ -95,17 +72,7 @@ func (r *Report) Finish() int {
 				infra = true
 				continue
 			}
-			var kf *KnownFinding
-			for i := range known {
-				k := &known[i]
-				if k.Property != r.Prop || k.Status != "open" {
-					continue
-				}
-				if ok, _ := regexp.MatchString("^(?:"+k.Class+")$", f.Class); ok {
-					kf = k
-					break
-				}
-			}
+			kf := common.MatchKnown(known, r.Prop, f.Class)
 			if kf != nil {
 				if !printedKnown[kf.ID] {
 					printedKnown[kf.ID] = true
